@@ -1,6 +1,6 @@
 (* C01 -- Simulation computes the documented cycle semantics of every primitive.
    Only statements + `exact`; the proofs live in Sim/SimCorrect.v. *)
-From PyRTL Require Import Sim.SimModel Sim.SimCorrect Netlist.Unique.
+From PyRTL Require Import Sim.SimModel Sim.OpLemmas Sim.SimCorrect Netlist.Unique.
 From Coq Require Import Permutation.
 
 (* One cycle: every declared wire has exactly the reference value and lies in
@@ -35,6 +35,50 @@ Theorem C01_order_independent : forall nl st l1 l2 rdy v0,
     fold_left (exec_spec nl st) l1 v0 w = fold_left (exec_spec nl st) l2 v0 w.
 Proof. exact comb_order_independent. Qed.
 Print Assumptions C01_order_independent.
+
+(* The fragments of pyrtl/simulation.py (and WireVector.bitmask) that py/genfrag_C01.py translates
+   into Gen/SimExec.v on every run, each shown to be the documented function.  Sim/SimModel.v is
+   built from these definitions, so the refinement theorems above are about what the source says
+   now; a source edit that changes one of them stops the corresponding theorem below (and with it
+   the refinement proof). *)
+
+(* Simulation._sanitize with WireVector.bitmask = reduction mod 2^bitwidth *)
+Theorem C01_src_sanitize_is_mod : forall v w, 0 <= w -> sx_sanitize v w = v mod 2 ^ w.
+Proof. exact sx_sanitize_mod. Qed.
+Print Assumptions C01_src_sanitize_is_mod.
+
+(* the 'c' loop of _execute (start value, body, direction over net.args) = arithmetic concatenation,
+   first argument most significant *)
+Theorem C01_src_concat_loop : forall args,
+  (forall v w, In (v, w) args -> 0 <= w /\ inrange v w) ->
+  sim_concat args = concat_spec args.
+Proof. exact sim_concat_spec. Qed.
+Print Assumptions C01_src_concat_loop.
+
+(* the 's' loop of _execute (start value, body, direction over op_param) : bit j of the result is
+   bit op_param[j] of the source *)
+Theorem C01_src_select_loop : forall src idx,
+  (forall i, In i idx -> 0 <= i) ->
+  sim_select src idx = select_spec src idx.
+Proof. exact sim_select_spec. Qed.
+Print Assumptions C01_src_select_loop.
+
+(* the dict lookup of the 'm' arm: memvalue[memid].get(read_addr, default_value) *)
+Theorem C01_src_mem_get : forall d a dflt, sx_mem_get d a dflt = assoc_d d a dflt.
+Proof. exact sx_mem_get_spec. Qed.
+Print Assumptions C01_src_mem_get.
+
+(* _mem_update stores args[1] at args[0] exactly when args[2] is non-zero *)
+Theorem C01_src_mem_write : forall a0 a1 a2,
+  sx_mem_write_cond a0 a1 a2 = negb (a2 =? 0)
+  /\ sx_mem_write_addr a0 a1 a2 = a0 /\ sx_mem_write_data a0 a1 a2 = a1.
+Proof. exact sx_mem_write_spec. Qed.
+Print Assumptions C01_src_mem_write.
+
+(* the register capture of step: the next-value argument reduced mod 2^bitwidth of the register *)
+Theorem C01_src_reg_capture : forall x w, 0 <= w -> sx_reg_capture x w = x mod 2 ^ w.
+Proof. exact sx_reg_capture_mod. Qed.
+Print Assumptions C01_src_reg_capture.
 
 (* Non-vacuity: a design with a register (reset 5), a truncating subtract, a
    nand, a concat, a select and a memory satisfies wfb; both sides compute the
